@@ -551,8 +551,14 @@ fn err_kind(e: &str) -> &'static str {
 }
 
 pub fn ctx_ab() -> SymbolicContext {
+    // an extended context (two spare variable sets) of a network with implicit parameters: names of
+    // spare BDD variables (`a_extra_0`) and of parameters must not be accepted as propositions
     let bn = BooleanNetwork::try_from("a -> b\nb -| a\n").unwrap();
-    SymbolicContext::new(&bn).unwrap()
+    let mut m = HashMap::new();
+    for v in bn.variables() {
+        m.insert(v, 2u16);
+    }
+    SymbolicContext::with_extra_state_variables(&bn, &m).unwrap()
 }
 
 fn k4_case(out: &mut Out, ctx: &SymbolicContext, t: &HctlTreeNode) -> Option<HctlTreeNode> {
@@ -649,7 +655,7 @@ fn k4_spec() -> TreeSpec {
 
 fn k4_rand_spec() -> TreeSpec {
     TreeSpec {
-        props: vec![s("a"), s("b"), s("a"), s("b"), s("q")],
+        props: vec![s("a"), s("b"), s("a"), s("b"), s("q"), s("a_extra_0"), s("b_extra_1")],
         vars: vec![s("x"), s("xx"), s("y"), s("z"), s("xxx")],
         wilds: vec![s("p"), s("w")],
         doms: vec![s("d"), s("e")],
@@ -715,10 +721,11 @@ fn preprocessed_pool(rng: &mut Rng, ctx: &SymbolicContext, n: usize, exhaustive_
         SymbolicContext::new(&bn).unwrap()
     };
     let mut tries = 0;
-    while pool.len() < n && tries < 20 * n {
+    let target = pool.len() + n;
+    while pool.len() < target && tries < 20 * n {
         tries += 1;
         let size = 2 + rng.below(18);
-        let t = rand_tree(rng, &rspec, size, &mut Vec::new(), true);
+        let t = if tries % 3 == 0 { sibling_tree(rng, &rspec) } else { rand_tree(rng, &rspec, size, &mut Vec::new(), true) };
         if let Ok(t2) = validate_props_and_rename_vars(t, &ctx2) {
             pool.push(t2);
         }
@@ -726,11 +733,63 @@ fn preprocessed_pool(rng: &mut Rng, ctx: &SymbolicContext, n: usize, exhaustive_
     pool
 }
 
+/// sibling quantifiers that reuse a name (preprocessing names by depth), followed by occurrences of outer
+/// variables and by further quantifiers: `Q{x}: ((Q{y}: A) op (Q{y}: (B op C)) op …)`
+fn sibling_tree(rng: &mut Rng, spec: &TreeSpec) -> HctlTreeNode {
+    let quants = [HybridOp::Bind, HybridOp::Exists, HybridOp::Forall];
+    let outer: Vec<String> = if rng.chance(2, 3) { vec![s("x")] } else { vec![s("x"), s("w")] };
+    let mut scope = outer.clone();
+    let nsib = 2 + rng.below(3);
+    let mut parts: Vec<HctlTreeNode> = Vec::new();
+    for i in 0..nsib {
+        let name = if rng.chance(3, 4) { s("y") } else { format!("y{i}") };
+        scope.push(name.clone());
+        let sz = 1 + rng.below(4);
+        let body = rand_tree(rng, spec_no_quant(spec), sz, &mut scope, true);
+        // sometimes a quantifier nested inside the sibling
+        let body = if rng.chance(1, 3) {
+            scope.push(s("v"));
+            let isz = 1 + rng.below(3);
+            let inner = rand_tree(rng, spec_no_quant(spec), isz, &mut scope, true);
+            scope.pop();
+            HctlTreeNode::mk_binary(body, HctlTreeNode::mk_hybrid(inner, "v", None, rng.pick(&quants).clone()), rng.pick(&BINOPS).clone())
+        } else {
+            body
+        };
+        scope.pop();
+        let d = if !spec.doms.is_empty() && rng.chance(1, 4) { Some(rng.pick(&spec.doms).clone()) } else { None };
+        parts.push(HctlTreeNode::mk_hybrid(body, &name, d, rng.pick(&quants).clone()));
+        if rng.chance(1, 2) {
+            // an occurrence of an outer variable (or a jump to it) after the sibling
+            let o = rng.pick(&outer).clone();
+            parts.push(if rng.chance(1, 2) {
+                HctlTreeNode::mk_unary(HctlTreeNode::mk_variable(&o), rng.pick(&UNOPS).clone())
+            } else {
+                HctlTreeNode::mk_hybrid(HctlTreeNode::mk_proposition(&spec.props[0]), &o, None, HybridOp::Jump)
+            });
+        }
+    }
+    let mut t = parts.pop().unwrap();
+    while let Some(p) = parts.pop() {
+        t = if rng.chance(1, 2) { HctlTreeNode::mk_binary(p, t, rng.pick(&BINOPS).clone()) } else { HctlTreeNode::mk_binary(t, p, rng.pick(&BINOPS).clone()) };
+    }
+    for o in outer.iter().rev() {
+        t = HctlTreeNode::mk_hybrid(t, o, None, rng.pick(&quants).clone());
+    }
+    t
+}
+
+fn spec_no_quant(spec: &TreeSpec) -> &TreeSpec {
+    // bodies are generated with the caller's scope; quantifiers inside would need fresh names
+    static CELL: std::sync::OnceLock<TreeSpec> = std::sync::OnceLock::new();
+    CELL.get_or_init(|| TreeSpec { hybops: vec![HybridOp::Jump], ..spec.clone() })
+}
+
 pub fn k5(dir: &str, thorough: bool, seed: u64) {
     let mut out = Out::new(dir, "k5");
     let mut rng = Rng::new(seed ^ 0x55);
     let ctx = ctx_ab();
-    let pool = preprocessed_pool(&mut rng, &ctx, if thorough { 60_000 } else { 4_000 }, if thorough { 5 } else { 4 });
+    let pool = preprocessed_pool(&mut rng, &ctx, if thorough { 60_000 } else { 3_000 }, if thorough { 5 } else { 4 });
     for t in &pool {
         // all sub-trees of one preprocessed formula
         let subs = subtrees(t);
